@@ -734,7 +734,7 @@ class LibsModel:
             interp.emit('append', node, container=recv, value=v)
             new = recv.w(elem=join(recv.elem, v) if (recv.elem is not None or recv.elts) else v, elts=None,
                          deps=(recv.deps or frozenset()) | (v.deps or frozenset()), maybe_empty=None, const=None,
-                         appended=True)
+                         appended=True, empty_init=None)
             if recv.elts:
                 new = new.w(elem=join(join_all(recv.elts), v))
             if target is not None:
